@@ -237,4 +237,97 @@ OptsErr == <<Opt(0, 1), Opt(1, 1), Opt(1, 0)>>
 OptsE == <<Opt(1, 0), Opt(1, 1)>>
 OptsTrap == <<Opt(0, 1), Opt(0, 2), Opt(0, 3), Opt(1, 2)>>
 OptsExec == <<Opt(0, 0), Opt(0, 1), Opt(1, 1)>>
+
+(***************************************************************************)
+(* Nested-errors stage of property C10: the failing commands of XCU 2.8.1  *)
+(* (leaf `fail c`) executed by other built-ins.  Every enumerated command  *)
+(* P is emitted as `P; probe` (the final observation point tells whether   *)
+(* the shell went on and what $? it saw) when it holds a failing command.  *)
+(***************************************************************************)
+FAIL(c) == Ts("fail", c)
+
+WrapP(ts) == <<T0("seq")>> \o ts \o <<PR>>
+
+OutC10 ==
+  LET ws == WrapP(toks)
+      t == Parse(ws)
+  IN [p |-> ws, o |-> [i \in 1..Len(Opts) |-> Result(t, Opts[i])]]
+
+EmitC10 == (Complete /\ HasKind({"fail", "exec"})) => PrintT(ToJson(OutC10))
+
+Same(A, B) == A.oc = B.oc /\ (Ok(A) => (A.tr = B.tr /\ A.st = B.st /\ A.nt = B.nt /\ A.x = B.x /\ A.fired = B.fired))
+
+Node1(k, m, c) == [k |-> k, n |-> 0, s |-> "", m |-> m, c |-> <<c>>]
+
+\* replacements of a leaf f = `fail c` (md: which law)
+Repl(f, md) ==
+  CASE md.k = "class" -> [f EXCEPT !.s = IF f.s \in ExitCats THEN md.ce ELSE md.cs]
+    [] md.k = "syn" -> IF f.s \in ExitCats THEN [f EXCEPT !.k = "evalsyn", !.s = ""] ELSE f
+    [] md.k = "sub" -> IF f.s \in SoftCats THEN Node1("sub", f.m, [f EXCEPT !.s = "sp"]) ELSE f
+    [] md.k = "eval" -> Node1("eval", f.m, f)
+    [] md.k = "dot" -> Node1("dot", f.m, f)
+
+\* the tree with every leaf `fail c` replaced (markers kept)
+RECURSIVE MapFail(_, _)
+MapFail(t, md) ==
+  IF t.k = "fail" THEN Repl(t, md)
+  ELSE [t EXCEPT !.c = [i \in 1..Len(t.c) |-> MapFail(t.c[i], md)]]
+
+LawsC10 ==
+  Complete =>
+  LET t == Parse(WrapP(toks))
+      body == Parse(WrapP(toks)).c[1]
+  IN \A i \in 1..Len(Opts) :
+       LET o == Opts[i]
+           R == Run(t, o)
+       IN \* (1) the outcome depends only on the class of the error: every
+          \*     "shall exit" category behaves as every other one, every
+          \*     "shall not exit" category as every other one
+          /\ \A ce \in ExitCats, cs \in SoftCats :
+               Same(R, Run(MapFail(t, [k |-> "class", ce |-> ce, cs |-> cs]), o))
+          \* (2) a "shall exit" error has the consequence of a syntax error
+          \*     found by eval (2.8.1 first row)
+          /\ Same(R, Run(MapFail(t, [k |-> "syn"]), o))
+          \* (3) a "shall exit" error inside a subshell is, for the invoking
+          \*     environment, an ordinary failing command: `( fail exit )`
+          \*     behaves as a "shall not exit" failure
+          /\ Same(R, Run(MapFail(t, [k |-> "sub"]), o))
+          \* (4) eval and dot do not change the consequence of an error
+          \*     inside them: `eval 'fail'` and `. file-holding-fail` behave
+          \*     as the failing command itself, with and without -e
+          /\ Same(R, Run(MapFail(t, [k |-> "eval"]), o))
+          /\ Same(R, Run(MapFail(t, [k |-> "dot"]), o))
+          \* (5) "shall not exit": without -e a program whose only failing
+          \*     commands are of the "shall not exit" class runs to its end
+          /\ (o.e = 0 /\ Ok(R) /\ ~HasKind({"exec", "exit", "evalsyn", "dotmiss", "dotsyn", "sete"})
+              /\ \A j \in 1..Len(toks) : toks[j].k = "fail" => toks[j].s \in SoftCats)
+               => (R.x = "none" /\ R.tr # <<>> /\ R.tr[Len(R.tr) - (IF o.t = 0 THEN 0 ELSE 1)][1] = Len(toks) + 2)
+          \* (6) "shall exit": a failing command of that class executed in
+          \*     the main environment is the last thing the shell does before
+          \*     the EXIT trap; the status is non-zero; the trap runs once
+          /\ (Ok(R) /\ HasKind({"fail"}) /\ ~HasKind({"sub", "exec", "exit", "evalsyn", "dotmiss", "dotsyn", "sete", "trap"})
+              /\ \A j \in 1..Len(toks) : toks[j].k = "fail" => toks[j].s \in ExitCats)
+               => LET Rb == Run(body, o)
+                  IN Ok(Rb) /\ (Rb.x = "exit" => (R.tr = Rb.tr /\ R.st = Rb.st /\ R.st # 0))
+                     /\ R.nt = o.t
+
+\* every category executed directly, by eval, by a dot script, by a function,
+\* in a subshell and in the contexts where -e is ignored
+AlphaC10Err ==
+  {FAIL(c) : c \in ErrCats} \cup
+  {MK0, PR, EXEC("missing", 0), EVAL, DOT(0), T0("sub"), DEFN("f"), CMD("f"),
+   T0("seq"), T0("and"), T0("or"), T0("not"), T0("if"), T0("while")}
+
+\* one category per class, larger bound: the built-ins nested in one another
+\* (eval in a dot script in a function called by eval ...)
+AlphaC10Nest ==
+  {FAIL("sp"), FAIL("reg"), PR, EVAL, DOT(0), T0("sub"), DEFN("f"), CMD("f"), T0("seq"), T0("if")}
+
+\* the remaining categories of the two classes at the larger bound (thorough)
+AlphaC10Nest2 ==
+  {FAIL("asg"), FAIL("exp"), FAIL("cmdsp"), FAIL("cmpr"), PR, EVAL, DOT(1), DEFN("f"), CMD("f"), T0("seq"), T0("or")}
+
+AlphaC10Laws == AlphaC10Err \cup {MK1, DOT(1)}
+
+OptsC10 == <<Opt(0, 0), Opt(0, 1), Opt(1, 0), Opt(1, 1)>>
 =============================================================================
